@@ -18,6 +18,7 @@ import enum
 import hashlib
 import math
 import random
+import re
 
 RTOL = 1e-9
 ATOL = 1e-12
@@ -31,6 +32,7 @@ DISCOVER_MODULES = (
     'ml_metrics._src.aggregates.utils',
     'ml_metrics._src.metrics.classification',
     'ml_metrics._src.aggregates.base',
+    'ml_metrics._src.aggregates.keras_metric_wrapper',
 )
 
 # Classes that satisfy the protocol structurally but cannot be a subject.
@@ -48,6 +50,7 @@ EXPECTED_FAMILIES = (
     'TopKConfusionMatrixAggFn', 'SamplewiseClassification',
     'ClassificationAggFn', 'TopKRetrieval', 'ThresholdedRetrieval',
     'TopKWordNGrams', 'PatternFrequency', 'CalibrationHistogram',
+    'KerasAggregateFn',
 )
 
 # Mechanism keys the adapters assign to defects of the unchanged tree that were
@@ -83,9 +86,34 @@ CANDIDATE_DEFECT_KEYS = {
         'ValueAccumulator.merge(non-empty, fresh): zip(strict=True) over ()  [C01, C11]',
     'tuple-mean-state-merge-empty-operand-raises':
         'TupleMeanState.merge(non-empty, fresh): zip(strict=True) over ()  [C01, C11]',
+    # second audit round (audits/aggregates/round2)
+    'fixed-size-sample-merged-logw-collapses-add-raises':
+        'FixedSizeSample.merge adds the log acceptance weights of its operands; after many '
+        'merged states the weight underflows and the next add() raises IndexError  [C01, C11]',
+    'multiclass-without-vocab-batch-dependent':
+        'multiclass / multiclass-multioutput input without vocab: the class vocabulary is '
+        're-deduced per batch, count vectors of different classes are added position by '
+        'position (macro) and tn depends on the classes of the batch (micro / samples)  [C01]',
+    'multiclass-binary-average-positive-class-from-set-order':
+        'multiclass input, average=binary (the default), no vocab: the positive class is the '
+        'first element of set(labels) of the batch  [C01]',
+    'macro-binary-indicator-merge-demands-vocab':
+        'ConfusionMatrixAggFn.merge_states demands a vocab for macro average on binary / '
+        'multiclass-indicator input, which never use one  [C01]',
+    'mean-variance-drops-batch-containing-inf':
+        'Mean / MeanAndVariance / Var.merge take an operand whose mean / variance is NaN for '
+        'an empty one: a batch holding +-inf is dropped with its finite values and its '
+        'count (or its NaN column mean is treated as "no data")  [C01, C07]',
+    'mean-merge-infinite-mean-then-finite-batch-gives-nan':
+        'Mean.merge updates mean += (other.mean - mean) * ratio: with an accumulated mean of '
+        '+-inf this is inf - inf = NaN although the mean of the data is +-inf  [C01, C07]',
+    'keras-aggregate-fn-shared-state':
+        'KerasAggregateFn.create_state() resets and returns the one shared metric object: '
+        'all states of one aggregate function are the same object  [C01, C11]',
 }
 
 NAN = float('nan')
+INF = float('inf')
 
 
 def stable_int(*parts) -> int:
@@ -188,6 +216,13 @@ class Adapter:
   per_row = False        # add() returns per-row values (obj mode)
   result_is_copy = False  # result() is implemented as a defensive copy
   scale = 1.0            # magnitude of the results (atol = 1e-12 * scale)
+  checks = ('C01', 'C11')  # property modules that iterate over this adapter
+
+  def accepts_refusal(self, exc, step):
+    """True when `exc` (type name, message) raised at `step` ('add' / 'merge') is
+    an explicit refusal of this configuration that the property accepts."""
+    del exc, step
+    return False
 
   # -- construction --------------------------------------------------------
   def build(self):
@@ -344,6 +379,14 @@ def _contains_nan(x):
   return False
 
 
+def _contains_inf(x):
+  if isinstance(x, float):
+    return x in (INF, -INF)
+  if isinstance(x, (list, tuple)):
+    return any(_contains_inf(e) for e in x)
+  return False
+
+
 def _dy(rng, lo, hi, den=8):
   """Dyadic rational in [lo, hi]: sums of these are exact in binary64."""
   return rng.randint(lo * den, hi * den) / den
@@ -370,19 +413,43 @@ class MeanAd(Adapter):
 
   modes = ('obj', 'aggfn')
 
-  def __init__(self, cls_name, shape):
-    self.cls_name, self.shape = cls_name, shape
+  def __init__(self, cls_name, shape, data='nan'):
+    self.cls_name, self.shape, self.data = cls_name, shape, data
     self.family = cls_name
     self.covers = (cls_name,)
-    self.name = f'{cls_name}/{shape}'
+    self.name = f'{cls_name}/{shape}' + ('' if data == 'nan' else ',' + data)
     self.scale = 1e3 if cls_name == 'Mean' else 1e6
     self.new_state_is_accumulator = shape != 'scored'
+    if data == 'inf':
+      # input class "+inf / -inf among finite values, no NaN" (C01; C07 has the
+      # numpy-free oracle for the same class)
+      self.checks = ('C01',)
 
   def build(self):
     cls = getattr(_rs(), self.cls_name)
     return cls(batch_score_fn=_score_rows) if self.shape == 'scored' else cls()
 
+  def _gen_inf_dataset(self, rng, n):
+    """Finite dyadic values with a few +inf / -inf entries, never a NaN."""
+    signs = rng.choice([(INF,), (INF,), (-INF,), (INF, -INF), (INF, -INF)])
+    p = rng.choice([0.1, 0.25, 0.5])
+    def val():
+      return rng.choice(signs) if rng.random() < p else _dy(rng, -1000, 1000)
+    if self.shape in ('1d', 'scored'):
+      rows = [val() for _ in range(n)]
+      if n and not _contains_inf(rows):
+        rows[rng.randrange(n)] = rng.choice(signs)
+      return rows
+    col = rng.choice([None, 0, 1, 2])  # inf in one column only / anywhere
+    rows = [[val() if col in (None, j) else _dy(rng, -1000, 1000) for j in range(3)]
+            for _ in range(n)]
+    if n and not _contains_inf(rows):
+      rows[rng.randrange(n)][col or 0] = rng.choice(signs)
+    return rows
+
   def gen_dataset(self, rng, n):
+    if self.data == 'inf':
+      return self._gen_inf_dataset(rng, n)
     mode = rng.choice(['none', 'sparse', 'sparse', 'col_all', 'col_block', 'all'])
     if self.shape in ('1d', 'scored'):
       rows = []
@@ -430,7 +497,31 @@ class MeanAd(Adapter):
               'var': canonize(result.var), 'total': canonize(result.total)}
     return canonize(result)
 
+  def _inf_mechanism(self, diffs, rows):
+    """Key of a failure on data that holds +-inf and no NaN, by the column the
+    differing leaf belongs to (every column when the leaf names none)."""
+    two_d = bool(rows) and isinstance(rows[0], (list, tuple))
+    cols = [[r[j] for r in rows] for j in range(len(rows[0]))] if two_d else [list(rows)]
+    if two_d and diffs and len(diffs) == 1:
+      m = re.search(r'\[(\d+)\]$', diffs[0][0])
+      if m and int(m.group(1)) < len(cols):
+        cols = [cols[int(m.group(1))]]
+    pos = any(INF in c for c in cols)
+    neg = any(-INF in c for c in cols)
+    both = any(INF in c and -INF in c for c in cols)
+    if not (pos or neg):
+      return None
+    if self.cls_name != 'Mean' or both:
+      # some batch / operand has values but a NaN variance (any inf) or a NaN
+      # mean (+inf and -inf): it is what merge() takes for "empty"
+      return 'mean-variance-drops-batch-containing-inf'
+    return 'mean-merge-infinite-mean-then-finite-batch-gives-nan'
+
   def mechanism(self, kind, diffs=None, exc=None, rows=None):
+    if rows is not None and _contains_inf(rows) and not _contains_nan(rows):
+      key = self._inf_mechanism(diffs, rows)
+      if key:
+        return key
     if (self.cls_name in ('MeanAndVariance', 'Var') and self.shape == '2d'
         and rows is not None and _contains_nan(rows)):
       # 2-D input in which some column has no value in some batch / operand:
@@ -657,7 +748,8 @@ class FixedSizeSampleAd(Adapter):
     return [rng.randint(0, 9) for _ in range(n)]
 
   def args(self, rows):
-    return (list(rows),)
+    # a range is a valid (sized, sliceable) input and keeps huge shards cheap
+    return (rows if isinstance(rows, range) else list(rows),)
 
   def observe(self, state, result):
     return {'reservoir': sorted(canonize(list(result))),
@@ -674,12 +766,23 @@ class FixedSizeSampleAd(Adapter):
       out.append(('.reservoir.len', len(c['reservoir']), want))
     if c['reviewed'] != len(rows):
       out.append(('.reviewed', c['reviewed'], len(rows)))
-    extra = collections.Counter(c['reservoir']) - collections.Counter(rows)
+    if isinstance(rows, range):
+      # distinct values: every sample at most once and inside the range
+      seen = collections.Counter(c['reservoir'])
+      extra = sorted(v for v, k in seen.items()
+                     for _ in range(k - (1 if (isinstance(v, int) and v in rows) else 0)))
+    else:
+      extra = sorted((collections.Counter(c['reservoir'])
+                      - collections.Counter(rows)).elements())
     if extra:
-      out.append(('.reservoir.not_in_dataset', sorted(extra.elements()), []))
+      out.append(('.reservoir.not_in_dataset', extra[:12], []))
     return out
 
   def mechanism(self, kind, diffs=None, exc=None, rows=None):
+    if kind == 'add_after_merge_raises':
+      # input class of the many-states scenarios: 20-300 tiny states (or a few
+      # states that each reviewed 1e5-3e6 samples) were merged, then add()
+      return 'fixed-size-sample-merged-logw-collapses-add-raises'
     if kind in ('operand_changed_by_merge', 'operand_not_independent_after_merge',
                 'merge_states_modified_non_first_state'):
       return 'fixed-size-sample-merge-mutates-operand'
@@ -867,6 +970,34 @@ SAMPLEWISE_TN_FREE = CM_TN_FREE + ('accuracy',)
 
 STR_VOCAB = {'a': 0, 'b': 1, 'c': 2, 'd': 3}
 INT_VOCAB = {7: 0, 11: 1, 13: 2}
+# Two-class pools for average='binary' on multiclass labels. 0 and 8 share their
+# slot in an 8-slot set table, so set([0, 8]) and set([8, 0]) iterate in insertion
+# order whatever PYTHONHASHSEED is (int hashes are not randomised).
+PAIR_INT_VOCAB = {0: 0, 8: 1}
+PAIR_STR_VOCAB = {'y': 0, 'n': 1}
+VOCABS = {'str': STR_VOCAB, 'int': INT_VOCAB, 'pair_int': PAIR_INT_VOCAB,
+          'pair_str': PAIR_STR_VOCAB}
+
+KEY_NO_VOCAB = 'multiclass-without-vocab-batch-dependent'
+KEY_BINARY_AVG = 'multiclass-binary-average-positive-class-from-set-order'
+KEY_MACRO_MERGE = 'macro-binary-indicator-merge-demands-vocab'
+# violation kinds of C01 that compare a batched / sharded history with one batch
+_BATCHING_KINDS = ('result_mismatch', 'batched_add_raises', 'merge_raises', 'result_raises',
+                   'per_row_value_depends_on_batch')
+
+
+def _tn_free_leaf(path):
+  """True when the differing leaf is a quantity that does not involve tn."""
+  toks = re.findall(r'\.([A-Za-z_][A-Za-z_0-9]*)', path.split('@')[-1])
+  if not toks:
+    return False
+  if toks[0] == 'confusion_matrix':
+    return len(toks) > 1 and toks[1] in ('tp', 'fp', 'fn', 'k')
+  return toks[0] in CM_TN_FREE or toks[0] == 'accuracy'
+
+
+def _vocab_refusal(exc):
+  return bool(exc) and exc[0] == 'ValueError' and 'vocab' in exc[1].lower()
 
 
 def _canon_cm(x):
@@ -888,15 +1019,38 @@ class _LabelData:
   input_type = 'binary'
   labels = 'int'
 
+  drift = False  # the classes that occur change along the dataset
+
   def _pool(self, rng):
-    vocab = STR_VOCAB if self.labels == 'str' else INT_VOCAB
+    vocab = VOCABS[self.labels]
     keys = list(vocab)
     if rng.random() < 0.3:  # some classes never occur in this dataset
       keys = keys[:2]
     return keys
 
+  def _gen_drifting(self, rng, n):
+    """Rows whose classes come from a window of the pool that moves with the
+    row index: consecutive batches / shards see different sets of classes."""
+    pool = list(VOCABS[self.labels])
+    rng.shuffle(pool)
+    width = rng.choice([1, 2, 2]) if len(pool) > 2 else 1
+    steps = rng.randint(2, max(2, len(pool)))
+    rows = []
+    for i in range(n):
+      w = (i * steps) // max(n, 1)
+      win = [pool[(w + d) % len(pool)] for d in range(width)]
+      if self.input_type == 'multiclass':
+        rows.append([rng.choice(win), rng.choice(win)])
+      else:
+        t = rng.sample(win, rng.randint(1, len(win)))
+        p = rng.sample(win, rng.randint(1, len(win)))
+        rows.append([t, p])
+    return rows
+
   def gen_dataset(self, rng, n):
     it = self.input_type
+    if self.drift and it in ('multiclass', 'multiclass-multioutput') and rng.random() < 0.6:
+      return self._gen_drifting(rng, n)
     if it == 'binary':
       pos, neg = ('y', 'n') if self.labels == 'str' else (1, 0)
       p = rng.choice([0.0, 0.5, 0.5, 1.0])
@@ -939,9 +1093,18 @@ class ConfusionMatrixAd(_LabelData, Adapter):
   modes = ('aggfn',)
 
   def __init__(self, input_type, average, vocab, labels='str', k_list=None,
-               via='direct', n_classes=3):
+               via='direct', n_classes=3, metrics='default'):
     self.input_type, self.average, self.labels = input_type, average, labels
     self.with_vocab, self.k_list, self.via = vocab, k_list, via
+    self.metric_set = metrics
+    self.needs_vocab = input_type in ('multiclass', 'multiclass-multioutput')
+    # second audit round: configurations of C01 only
+    #  'all'  = every rate (also the tn-based ones) although the vocabulary is
+    #           deduced from the data; the classes drift along the dataset
+    if metrics == 'all' or (not vocab and (
+        average == 'macro' or (average == 'binary' and self.needs_vocab))):
+      self.checks = ('C01',)
+    self.drift = metrics == 'all'
     self.n_classes = 2 if (input_type == 'multiclass-indicator'
                            and average == 'binary') else n_classes
     if via == 'wrapper':
@@ -955,14 +1118,16 @@ class ConfusionMatrixAd(_LabelData, Adapter):
         if via == 'wrapper' else ())
     self.name = (f'{self.family}/{input_type},{average},'
                  f'vocab={"yes" if vocab else "none"},{labels}'
-                 + (f',k={k_list}' if k_list else ''))
+                 + (f',k={k_list}' if k_list else '')
+                 + (',all-metrics' if metrics == 'all' else ''))
 
   def _kwargs(self):
     vocab = None
     if self.with_vocab:
-      vocab = dict(STR_VOCAB if self.labels == 'str' else INT_VOCAB)
-    needs_vocab = self.input_type in ('multiclass', 'multiclass-multioutput')
-    metrics = CM_ALL if (self.with_vocab or not needs_vocab) else CM_TN_FREE
+      vocab = dict(VOCABS[self.labels])
+    needs_vocab = self.needs_vocab
+    metrics = CM_ALL if (self.with_vocab or not needs_vocab
+                         or self.metric_set == 'all') else CM_TN_FREE
     kw = dict(metrics=list(metrics), input_type=self.input_type,
               average=self.average, vocab=vocab)
     if self.input_type == 'binary':
@@ -988,7 +1153,28 @@ class ConfusionMatrixAd(_LabelData, Adapter):
       return 'confusion-matrix-merge-states-rejects-empty-state'
     if self.k_list and diffs and all(p.endswith('.k') for p, _, _ in diffs):
       return 'topk-confusion-matrix-loses-k-after-second-batch'
+    if self.needs_vocab and not self.with_vocab and kind in _BATCHING_KINDS:
+      # input class: labels are mapped to columns by a vocabulary deduced from
+      # each batch on its own
+      if self.average == 'binary':
+        return KEY_BINARY_AVG
+      if self.average == 'macro':
+        return KEY_NO_VOCAB      # per-class vectors of different classes are added
+      if diffs and not any(_tn_free_leaf(p) for p, _, _ in diffs):
+        return KEY_NO_VOCAB      # micro: tn counts the classes of the batch
+    if (not self.needs_vocab and self.average == 'macro' and not self.with_vocab
+        and kind == 'merge_raises' and _vocab_refusal(exc)):
+      return KEY_MACRO_MERGE
     return super().mechanism(kind, diffs, exc, rows)
+
+  def accepts_refusal(self, exc, step):
+    # A ValueError that names the missing vocab is the documented way out: the
+    # class docstring says a vocab is "required if computed distributed ... and the
+    # average is macro" (for every input type; upstream pins it for the default
+    # binary input), so a macro MERGE without vocab may be refused as well.
+    if not _vocab_refusal(exc) or self.with_vocab:
+      return False
+    return self.needs_vocab or (self.average == 'macro' and step == 'merge')
 
 
 class SamplewiseAd(_LabelData, Adapter):
@@ -996,20 +1182,28 @@ class SamplewiseAd(_LabelData, Adapter):
 
   per_row = True
 
-  def __init__(self, input_type, vocab, labels='str', via='direct', n_classes=3):
+  def __init__(self, input_type, vocab, labels='str', via='direct', n_classes=3,
+               metrics='default'):
     self.input_type, self.labels, self.with_vocab = input_type, labels, vocab
     self.via, self.n_classes = via, n_classes
+    self.metric_set = metrics
+    self.needs_vocab = input_type in ('multiclass', 'multiclass-multioutput')
+    if metrics == 'all':
+      self.checks = ('C01',)
+    self.drift = metrics == 'all'
     self.family = 'ClassificationAggFn' if via == 'wrapper' else 'SamplewiseClassification'
     self.covers = (self.family, 'SamplewiseClassification')
     self.modes = ('aggfn',) if via == 'wrapper' else ('obj', 'aggfn')
     self.name = (f'{self.family}/samples,{input_type},'
-                 f'vocab={"yes" if vocab else "none"},{labels}')
+                 f'vocab={"yes" if vocab else "none"},{labels}'
+                 + (',all-metrics' if metrics == 'all' else ''))
 
   def _kwargs(self):
     vocab = None
     if self.with_vocab:
-      vocab = dict(STR_VOCAB if self.labels == 'str' else INT_VOCAB)
-    free = self.with_vocab or self.input_type == 'multiclass-indicator'
+      vocab = dict(VOCABS[self.labels])
+    free = (self.with_vocab or self.input_type == 'multiclass-indicator'
+            or self.metric_set == 'all')
     return dict(metrics=list(SAMPLEWISE_ALL if free else SAMPLEWISE_TN_FREE),
                 input_type=self.input_type, vocab=vocab)
 
@@ -1027,6 +1221,17 @@ class SamplewiseAd(_LabelData, Adapter):
   def row_values(self, out, nrows):
     cols = {_key(k): canonize(v) for k, v in out.items()}
     return [{k: v[i] for k, v in cols.items()} for i in range(nrows)]
+
+  def mechanism(self, kind, diffs=None, exc=None, rows=None):
+    if (self.needs_vocab and not self.with_vocab and kind in _BATCHING_KINDS
+        and diffs and not any(_tn_free_leaf(p) for p, _, _ in diffs)):
+      # per-sample tn = (classes of the batch) - tp - fp - fn
+      return KEY_NO_VOCAB
+    return super().mechanism(kind, diffs, exc, rows)
+
+  def accepts_refusal(self, exc, step):
+    del step
+    return self.needs_vocab and not self.with_vocab and _vocab_refusal(exc)
 
 
 # ---------------------------------------------------------------------------
@@ -1313,6 +1518,70 @@ class UserAggregateFnAd(MeanAd):
     return base.UserAggregateFn(self.build().as_agg_fn())
 
 
+class _StandInKerasMean:
+  """A metric that implements the interface keras_metric_wrapper.KerasMetric
+  documents (update_state / reset_state / merge_state / result); Keras itself
+  is not installed. Arithmetic mean of the values seen."""
+
+  def __init__(self):
+    self.total = 0.0
+    self.count = 0
+
+  def reset_state(self):
+    self.total, self.count = 0.0, 0
+
+  def update_state(self, values):
+    for v in values:
+      self.total += v
+      self.count += 1
+
+  def merge_state(self, others):
+    for o in others:
+      self.total += o.total
+      self.count += o.count
+
+  def result(self):
+    return {'total': self.total, 'count': self.count}
+
+
+def _new_stand_in_keras_mean():
+  # a plain function: a class would pass the wrapper's duck-type test itself
+  return _StandInKerasMean()
+
+
+class KerasAggregateFnAd(Adapter):
+  """KerasAggregateFn around a stand-in metric (instance or factory)."""
+
+  family = 'KerasAggregateFn'
+  covers = ('KerasAggregateFn',)
+  modes = ('aggfn',)
+  allows_empty_batch = True
+  scale = 1e3
+
+  def __init__(self, how):
+    self.how = how
+    self.name = f'KerasAggregateFn/stand-in-mean,{how}'
+
+  def build_aggfn(self):
+    from ml_metrics._src.aggregates import keras_metric_wrapper as kw
+    return kw.KerasAggregateFn(
+        _StandInKerasMean() if self.how == 'instance' else _new_stand_in_keras_mean)
+
+  def gen_dataset(self, rng, n):
+    return [_dy(rng, -100, 100) for _ in range(n)]
+
+  def args(self, rows):
+    return (list(rows),)
+
+  def mechanism(self, kind, diffs=None, exc=None, rows=None):
+    # configuration class: several states of ONE aggregate function are alive
+    # at a time (shards / operands); confirmed at the call site
+    fn = self.build_aggfn()
+    if fn.create_state() is fn.create_state():
+      return 'keras-aggregate-fn-shared-state'
+    return super().mechanism(kind, diffs, exc, rows)
+
+
 # ---------------------------------------------------------------------------
 # registry / inventory
 # ---------------------------------------------------------------------------
@@ -1354,6 +1623,21 @@ def all_adapters():
       C('binary', 'binary', False, 'int', via='wrapper'),
       C('multiclass', 'macro', True, 'str', via='wrapper'),
       C('multiclass-multioutput', 'micro', True, 'str', k_list=(1, 2), via='wrapper'),
+      # second audit round (C01 only) -------------------------------------------
+      # labels without a vocabulary, every rate requested, classes drift
+      C('multiclass', 'micro', False, 'int', metrics='all'),
+      C('multiclass', 'macro', False, 'str', metrics='all'),
+      C('multiclass-multioutput', 'micro', False, 'str', metrics='all'),
+      C('multiclass-multioutput', 'macro', False, 'int', metrics='all'),
+      C('multiclass', 'macro', False, 'int', via='wrapper', metrics='all'),
+      C('multiclass-multioutput', 'micro', False, 'int', k_list=(1, 2), metrics='all'),
+      # two-class labels under the default average (binary): positive = vocab[0]
+      C('multiclass', 'binary', False, 'pair_int', metrics='all'),
+      C('multiclass', 'binary', False, 'pair_str', metrics='all'),
+      C('multiclass', 'binary', True, 'pair_int'),   # control: explicit order
+      # macro average where no vocabulary is ever used
+      C('binary', 'macro', False, 'int'), C('binary', 'macro', False, 'str', via='wrapper'),
+      C('multiclass-indicator', 'macro', False),
   ]
   S = SamplewiseAd
   ads += [
@@ -1361,6 +1645,8 @@ def all_adapters():
       S('multiclass-multioutput', True, 'int'), S('multiclass-multioutput', False, 'str'),
       S('multiclass-indicator', False),
       S('multiclass-multioutput', True, 'str', via='wrapper'),
+      S('multiclass', False, 'str', metrics='all'),
+      S('multiclass-multioutput', False, 'int', metrics='all'),
   ]
   T = TopKRetrievalAd
   ads += [
@@ -1379,6 +1665,9 @@ def all_adapters():
           TopKWordNGramsAd(4, 2, count_duplicate=False)]
   ads += [PatternFrequencyAd(True), PatternFrequencyAd(False)]
   ads += [CalibrationHistogramAd(), UserAggregateFnAd()]
+  ads += [KerasAggregateFnAd('instance'), KerasAggregateFnAd('factory')]
+  ads += [MeanAd(c, sh, data='inf') for c in ('Mean', 'MeanAndVariance', 'Var')
+          for sh in ('1d', '2d')]
   names = [a.name for a in ads]
   assert len(set(names)) == len(names), 'duplicate adapter name'
   return ads
@@ -1388,9 +1677,10 @@ def registry():
   return {a.name: a for a in all_adapters()}
 
 
-def adapter_modes():
-  """[(adapter name, mode), ...] in a stable order."""
-  return [(a.name, m) for a in all_adapters() for m in a.modes]
+def adapter_modes(check=None):
+  """[(adapter name, mode), ...] in a stable order (of one property module)."""
+  return [(a.name, m) for a in all_adapters() for m in a.modes
+          if check is None or check in a.checks]
 
 
 def discover_inventory():
